@@ -86,7 +86,8 @@ class Hist(object):
         t = self.now(later)
         texts = [l for l, u in b.uids.items() if u['tag'] == 13]
         if op == 'add_uid':
-            name = 'U%d' % self.nuid
+            # names that contain one another ('U' in 'U0', 'U1' in 'U11'): selection by name must be by equality, not by containment
+            name = (['U0', 'U1', 'U', 'U11', 'U2', 'U22', 'U3', 'U33'] + ['U%d' % i for i in range(40, 400)])[self.nuid]
             self.nuid += 1
             b.add_uid(name, t, flags=self.cyc(FLAGSETS, 'fl'), prefs=self.cyc(PREFSETS, 'pr'),
                       primary=self.cyc([None, True, False], 'pm'), key_expiration=self.cyc(EXPIRIES, 'ex'))
